@@ -16,6 +16,9 @@ ALLOWED_AXIOMS = {'propext', 'Classical.choice', 'Quot.sound'}
 FORBIDDEN = re.compile(r'\b(sorry|admit|native_decide|bv_decide|implemented_by)\b|^\s*axiom\s|^\s*unsafe\s|maxHeartbeats\s+0', re.M)
 
 ENV = dict(os.environ, CARGO_NET_OFFLINE='true', PIP_NO_INDEX='1', GOPROXY='off')
+COV = bool(os.environ.get('VERIF_COV'))           # set by tools/coverage.py only; never by a registered check
+COV_TARGET = os.path.join(CACHE, 'covtarget')
+COV_RAW = os.environ.get('VERIF_COV_RAW', os.path.join(CACHE, 'cov', 'raw'))
 
 
 class Broken(Exception):
@@ -171,12 +174,20 @@ def build_hx(features):
     """features: e.g. ('k160','stone5','full').  Returns path of a private copy of the binary."""
     ensure_vendor()
     feats = ' '.join(features)
-    r = sh(['cargo', '+stable', 'build', '--release', '--offline', '--features', feats], cwd=HARNESS, timeout=3600)
+    if COV:
+        # coverage run (tools/coverage.py): the same harness, built by the nightly toolchain (the only one with llvm-tools here) with
+        # source-based coverage instrumentation, in its own target directory; every hx process then leaves a .profraw file
+        global ENV
+        ENV = dict(ENV, RUSTFLAGS='-C instrument-coverage', CARGO_TARGET_DIR=COV_TARGET, LLVM_PROFILE_FILE=os.path.join(COV_RAW, '%p-%m.profraw'))
+        os.makedirs(COV_RAW, exist_ok=True)
+        r = sh(['cargo', '+nightly', 'build', '--release', '--offline', '--features', feats], cwd=HARNESS, timeout=3600)
+    else:
+        r = sh(['cargo', '+stable', 'build', '--release', '--offline', '--features', feats], cwd=HARNESS, timeout=3600)
     if r.returncode != 0:
         errs = '\n'.join(l for l in r.stdout.splitlines() if l.startswith('error'))[:3000]
         raise Broken('harness-build', f'cargo build --features "{feats}" against /repo failed', errs or r.stdout[-3000:])
-    src = os.path.join(TARGET, 'release', 'hx')
-    dst = os.path.join(CACHE, 'bin', 'hx-' + '-'.join(features))
+    src = os.path.join(COV_TARGET if COV else TARGET, 'release', 'hx')
+    dst = os.path.join(CACHE, 'bin', ('hxcov-' if COV else 'hx-') + '-'.join(features))
     os.makedirs(os.path.dirname(dst), exist_ok=True)
     sh(['cp', '-f', src, dst], check=True)
     return dst
